@@ -21,7 +21,8 @@ def points_for(inst):
     families the double-precision evaluation of the SPECIFICATION's expression cancels catastrophically there"""
     fns = {s["f"] for s in inst["prog"] if s["op"] == "ptw"}
     prods = sum(1 for s in inst["prog"] if s["op"] in ("mul", "vdot", "gauss"))
-    return POINTS if fns <= SAFE_AT_LARGE and prods <= 1 and not any(s["op"] == "vcg" for s in inst["prog"]) else POINTS[:-1]
+    steep = any(s["op"] in ("vcg", "powops", "rpow", "ptwpre", "div", "rdivc", "powop") for s in inst["prog"])
+    return POINTS if fns <= SAFE_AT_LARGE and prods <= 1 and not steep else POINTS[:-1]
 
 
 class Singular(Exception):
@@ -47,7 +48,7 @@ def ev(e, pt):
     if t == "pow":
         u = ev(e["a"], pt)
         n = rat(e["n"])
-        if (u <= 0 and e["n"][1] != 1) or (u == 0 and n < 0):
+        if (u <= 0 and e["n"][1] != 1) or (abs(u) < 1e-9 and n < 0):      # (1e-17 is the rounding residue of an exact zero, e.g. sinc(2): 0/0)
             raise Singular()
         return u ** (int(n) if e["n"][1] == 1 else n)
     u = ev(e["a"], pt)
@@ -89,10 +90,21 @@ def expected(inst, pt):
     return val, jac, inner
 
 
+JAXF = ("exp", "log", "log1p", "expm1", "sin", "cos", "tan", "sinh", "cosh", "tanh", "arctan", "sqrt", "reciprocal")
+
+
 class Builder:
-    def __init__(self):
+    def __init__(self, alt=False):
+        """alt: the same programs through the other implementations of the same mathematics: point-wise functions as JaxOperator,
+        products and scalar products as MultiLinearEinsum, the unit Gaussian energy as JaxLikelihoodEnergyOperator, op["s"] for the key"""
         import nifty.cl as ift
         self.ift = ift
+        self.alt = alt
+        if alt:
+            import jax
+            jax.config.update("jax_enable_x64", True)
+            import jax.numpy as jnp
+            self.jnp = jnp
         self.dom = ift.DomainTuple.make(ift.UnstructuredDomain(2))
         self.md = ift.MultiDomain.make({"a": self.dom, "b": self.dom})
         self.linm = np.array([[1., 2.], [0., -0.5]])
@@ -105,6 +117,8 @@ class Builder:
             y = ops[s["y"] - 1] if s["y"] else None
             o = s["op"]
             p = [rat(v) for v in s["p"]]
+            if self.alt and self.alt_slot(ops, s, x, y, p):
+                continue
             if o == "var":
                 ops.append(ift.FieldAdapter(self.dom, s["f"]))
             elif o == "add":
@@ -113,6 +127,32 @@ class Builder:
                 ops.append(x - y)
             elif o == "mul":
                 ops.append(x * y)
+            elif o == "div":
+                ops.append(x / y)
+            elif o == "powops":
+                ops.append(x ** y)
+            elif o == "rdivc":
+                ops.append(p[0] / x)
+            elif o == "divc":
+                ops.append(x / p[0])
+            elif o == "rsubc":
+                ops.append(p[0] - x)
+            elif o == "raddc":
+                ops.append(p[0] + x)
+            elif o == "powop":
+                ops.append(x ** int(p[0]))
+            elif o == "rpow":
+                ops.append(p[0] ** x)
+            elif o == "absop":
+                ops.append(abs(x))
+            elif o == "real":
+                ops.append(x.real)
+            elif o == "conj":
+                ops.append(x.conjugate())
+            elif o == "ptwpre":
+                ops.append(x.ptw_pre(s["f"]))
+            elif o == "getitem":
+                ops.append(x["s"])
             elif o == "ptw":
                 f = s["f"]
                 if f in ("power", "exponentiate"):
@@ -145,6 +185,26 @@ class Builder:
             else:
                 raise tlcmod.MachineryError("unknown op " + o)
         return ops[-1]
+
+    def alt_slot(self, ops, s, x, y, p):
+        ift, jnp = self.ift, self.jnp
+        o = s["op"]
+        if o == "ptw" and s["f"] in JAXF and isinstance(x.target, ift.DomainTuple):
+            f = (lambda v: 1. / v) if s["f"] == "reciprocal" else getattr(jnp, s["f"])
+            ops.append(ift.JaxOperator(x.target, x.target, f) @ x)
+        elif o in ("mul", "vdot") and isinstance(x.target, ift.DomainTuple) and x.target.shape == (2,):
+            pair = x.ducktape_left("u_") + y.ducktape_left("v_")
+            ops.append(ift.MultiLinearEinsum(pair.target, "i,i->i" if o == "mul" else "i,i->", key_order=("u_", "v_")) @ pair)
+        elif o == "gauss":
+            import warnings
+            with warnings.catch_warnings():
+                warnings.simplefilter("ignore")
+                ops.append(ift.JaxLikelihoodEnergyOperator(self.dom, lambda v: 0.5 * jnp.vdot(v, v), transformation=ift.ScalingOperator(self.dom, 1.), sampling_dtype=np.float64) @ x)
+        elif o in ("untag", "getitem"):
+            ops.append(x["s"])
+        else:
+            return False
+        return True
 
     def point(self, op, pt):
         ift = self.ift
@@ -187,7 +247,7 @@ def describe(prog):
         o = s["op"]
         if o == "var":
             out.append(s["f"])
-        elif o in ("add", "sub", "mul", "vdot"):
+        elif o in ("add", "sub", "mul", "vdot", "div", "powops"):
             out.append("%s(#%d,#%d)" % (o, s["x"], s["y"]))
         elif o == "ptw":
             out.append("%s%s(#%d)" % (s["f"], [round(rat(v), 4) for v in s["p"]] if s["p"] else "", s["x"]))
